@@ -345,8 +345,8 @@ example : lexSuffix ":-a b}c".toList = .ok (.switch true '-' "a b".toList, "}c".
     these definitions and re-checks every theorem stated over them) -/
 example : Generated.ExpansionTables.suffixSwitchSymbols = ['+', '-', '=', '?'] ∧
     Generated.ExpansionTables.suffixTrimSymbols = ['#', '%'] ∧
-    Generated.ExpansionTables.lengthPrefixPlain = ['}', '+', '=', ':', '%'] ∧
-    Generated.ExpansionTables.lengthPrefixAmbiguous = ['-', '?', '#'] ∧
+    Generated.ExpansionTables.lengthPrefixPlain = ['%', '+', ':', '=', '}'] ∧
+    Generated.ExpansionTables.lengthPrefixAmbiguous = ['#', '-', '?'] ∧
     Generated.ExpansionTables.ifsDefault = [' ', '\t', '\n'] ∧
     optionShortNames = "aCcenfhilmbsuvx".toList ∧
     "@*#?-$!0".toList.map specialOfChar =
@@ -382,6 +382,177 @@ theorem lexBraced_name (portable : Bool) (c : Char) (s2 rest : List Char)
 
 example : (lexBraced true "foo_1}bar".toList).toOption.map (fun b => (b.id, b.param, b.modifier, b.rest)) =
     some ("foo_1".toList, .var "foo_1", .none, "bar".toList) := by decide +kernel
+
+/-- The symbol tables of the lexer agree with each other and with XCU 2.6.2: every symbol `suffix_modifier` dispatches
+    to `switch` / `trim` has an action / a side there (and no other symbol has), and the assignment is the standard's:
+    `-` default, `=` assign, `?` error, `+` alternative, `#` prefix, `%` suffix.  (The tables are re-extracted from
+    modifier.rs on every run; the driver decodes the case syntax through them.) -/
+theorem symbol_tables_agree :
+    (∀ c, c ∈ Generated.ExpansionTables.suffixSwitchSymbols ↔ (swActionOfSymbol c).isSome = true) ∧
+    (∀ c, c ∈ Generated.ExpansionTables.suffixTrimSymbols ↔ (trimSideOfSymbol c).isSome = true) ∧
+    "-=?+".toList.map swActionOfSymbol = [some .default, some .assign, some .error, some .alter] ∧
+    "#%".toList.map trimSideOfSymbol = [some .prefix, some .suffix] := by
+  refine ⟨fun c => ?_, fun c => ?_, by decide, by decide⟩
+  · constructor
+    · intro h
+      simp only [Generated.ExpansionTables.suffixSwitchSymbols] at h
+      simp at h
+      rcases h with h | h | h | h <;> subst h <;> decide
+    · intro h
+      unfold swActionOfSymbol at h
+      cases hl : Generated.ExpansionTables.switchSymbols.lookup c with
+      | none => simp [hl] at h
+      | some v =>
+        have hm : c ∈ Generated.ExpansionTables.switchSymbols.map (·.1) := by
+          have := List.lookup_eq_some_iff.mp hl
+          obtain ⟨l1, l2, heq, _⟩ := this
+          rw [heq]; simp
+        revert hm; simp only [Generated.ExpansionTables.switchSymbols, Generated.ExpansionTables.suffixSwitchSymbols]
+        simp
+  · constructor
+    · intro h
+      simp only [Generated.ExpansionTables.suffixTrimSymbols] at h
+      simp at h
+      rcases h with h | h <;> subst h <;> decide
+    · intro h
+      unfold trimSideOfSymbol at h
+      cases hl : Generated.ExpansionTables.trimSymbols.lookup c with
+      | none => simp [hl] at h
+      | some v =>
+        have hm : c ∈ Generated.ExpansionTables.trimSymbols.map (·.1) := by
+          have := List.lookup_eq_some_iff.mp hl
+          obtain ⟨l1, l2, heq, _⟩ := this
+          rw [heq]; simp
+        revert hm; simp only [Generated.ExpansionTables.trimSymbols, Generated.ExpansionTables.suffixTrimSymbols]
+        simp
+
+/-- `${p#w}`, `${p##w}`, `${p%w}`, `${p%%w}`: after any parameter, a trim symbol (the characters `suffix_modifier`
+    dispatches to `trim`: the generated table, `# %` in the current code), doubled for "longest", starts a trim whose
+    pattern runs to the first closing brace — for every pattern without `}` (a "shortest" pattern does not start with
+    the symbol itself: that is the doubled form); and a colon before a trim symbol is an invalid modifier. -/
+theorem lexSuffix_trim (side : Char) (long : Bool) (w rest : List Char)
+    (hs : side ∈ Generated.ExpansionTables.suffixTrimSymbols) (hw : ∀ c ∈ w, c ≠ '}')
+    (hshort : long = false → w.head? ≠ some side) :
+    lexSuffix (side :: (if long then [side] else []) ++ w ++ '}' :: rest) = .ok (.trim side long w, '}' :: rest) ∧
+    lexSuffix (':' :: side :: (if long then [side] else []) ++ w ++ '}' :: rest) = .error .invalidModifier := by
+  have ⟨htw, hdw⟩ := span_until_brace w rest hw
+  have hnsw : side ∉ Generated.ExpansionTables.suffixSwitchSymbols := by
+    intro h
+    have : side ∈ Generated.ExpansionTables.suffixTrimSymbols ∧ side ∈ Generated.ExpansionTables.suffixSwitchSymbols := ⟨hs, h⟩
+    revert this; simp only [Generated.ExpansionTables.suffixTrimSymbols, Generated.ExpansionTables.suffixSwitchSymbols]
+    simp; intro h1; rcases h1 with h1 | h1 <;> subst h1 <;> decide
+  have hne : side ≠ ':' := by intro h; subst h; exact absurd hs (by decide)
+  have hc : (some side == some ':') = false := by simp [hne]
+  refine ⟨?_, ?_⟩
+  · cases long with
+    | true =>
+      simp [lexSuffix, hne, hnsw, hs, htw, hdw]
+    | false =>
+      have hh : ((w ++ '}' :: rest).head? == some side) = false := by
+        cases w with
+        | nil =>
+          have : side ≠ '}' := by intro h; subst h; exact absurd hs (by decide)
+          simp [Ne.symm this]
+        | cons d w' =>
+          have := hshort rfl
+          simp only [List.head?_cons, ne_eq, Option.some.injEq] at this
+          simp [this]
+      have hg : ¬ (w.head?.getD '}' = side) := by simpa using hh
+      simp [lexSuffix, hne, hnsw, hs, hg, htw, hdw]
+  · simp [lexSuffix, hnsw, hs]
+
+/-- ★ The general form `${<id><suffix>}` for every identifier made of name characters (a variable name, a positional
+    index of any number of digits, `0`): the lexer reads the longest run of name characters as the identifier,
+    classifies it with `type_of_id`, hands what follows to `suffix_modifier` and requires the closing brace — the result
+    has exactly that parameter, exactly the modifier `suffix_modifier` returns and exactly the text after the brace;
+    no identifier of this kind is rejected in portable mode. -/
+theorem lexBraced_id_general (portable : Bool) (c : Char) (s2 s3 rest : List Char) (p : Param) (m : LexMod)
+    (hc : isNameChar c = true) (hs : ∀ d ∈ s2, isNameChar d = true)
+    (hstop : ∀ d, s3.head? = some d → isNameChar d = false)
+    (hid : typeOfId (c :: s2) = some p)
+    (hsuf : lexSuffix (s3 ++ '}' :: rest) = .ok (m, '}' :: rest)) :
+    lexBraced portable (c :: s2 ++ (s3 ++ '}' :: rest)) =
+      .ok { id := c :: s2, param := p, modifier := m, rest := rest } := by
+  have hne : c ≠ '#' := by intro h; subst h; revert hc; decide
+  have hpre : hasLengthPrefix (c :: (s2 ++ (s3 ++ '}' :: rest))) = false := hasLengthPrefix_not_hash c _ hne
+  have ht : ∀ d, (s3 ++ '}' :: rest).head? = some d → isNameChar d = false := by
+    intro d hd
+    cases s3 with
+    | nil => simp at hd; subst hd; decide
+    | cons e s3' => exact hstop d (by simpa using hd)
+  have ⟨htw, hdw⟩ := takeWhile_dropWhile_stop s2 (s3 ++ '}' :: rest) hs ht
+  have hnp := typeOfId_not_special (c :: s2) p hid m
+  simp [lexBraced, hpre, hc, htw, hdw, hid, hsuf, hnp]
+
+/-- ★ … and for every special parameter `@ * ? - $ !` (the generated `SpecialParam::from_char` table; `#` has its own
+    table `lex_hash_forms`): one character, then the suffix; in portable mode exactly the combinations
+    `has_non_portable_modifier` lists are rejected. -/
+theorem lexBraced_special_general (portable : Bool) (c : Char) (s3 rest : List Char) (p : Param) (m : LexMod)
+    (hc : isNameChar c = false) (hne : c ≠ '#') (hsp : specialOfChar c = some p)
+    (hsuf : lexSuffix (s3 ++ '}' :: rest) = .ok (m, '}' :: rest)) :
+    lexBraced portable (c :: (s3 ++ '}' :: rest)) =
+      if portable && hasNonPortableModifier p m then .error .nonPortable
+      else .ok { id := [c], param := p, modifier := m, rest := rest } := by
+  have hpre : hasLengthPrefix (c :: (s3 ++ '}' :: rest)) = false := hasLengthPrefix_not_hash c _ hne
+  simp [lexBraced, hpre, hc, hsp, hsuf]
+
+/-- `${#<id>}` is the length of the parameter, for every identifier of name characters. -/
+theorem lexBraced_length_id (portable : Bool) (c : Char) (s2 rest : List Char) (p : Param)
+    (hc : isNameChar c = true) (hs : ∀ d ∈ s2, isNameChar d = true) (hid : typeOfId (c :: s2) = some p) :
+    lexBraced portable ('#' :: c :: s2 ++ '}' :: rest) =
+      .ok { id := c :: s2, param := p, modifier := .length, rest := rest } := by
+  have h1 : c ∉ Generated.ExpansionTables.lengthPrefixPlain := by
+    intro h; revert hc; revert h
+    simp only [Generated.ExpansionTables.lengthPrefixPlain]; simp
+    intro h; rcases h with h | h | h | h | h <;> subst h <;> decide
+  have h2 : c ∉ Generated.ExpansionTables.lengthPrefixAmbiguous := by
+    intro h; revert hc; revert h
+    simp only [Generated.ExpansionTables.lengthPrefixAmbiguous]; simp
+    intro h; rcases h with h | h | h <;> subst h <;> decide
+  have hpre : hasLengthPrefix ('#' :: c :: (s2 ++ '}' :: rest)) = true := by
+    simp [hasLengthPrefix, h1, h2]
+  have ⟨htw, hdw⟩ := takeWhile_dropWhile_name s2 rest hs
+  have hsuf : lexSuffix ('}' :: rest) = .ok (.none, '}' :: rest) := by
+    have n1 : ¬ ('}' ∈ Generated.ExpansionTables.suffixSwitchSymbols) := by decide
+    have n2 : ¬ ('}' ∈ Generated.ExpansionTables.suffixTrimSymbols) := by decide
+    simp [lexSuffix, n1, n2]
+  have hnp := typeOfId_not_special (c :: s2) p hid .length
+  simp [lexBraced, hpre, hc, htw, hdw, hid, hsuf, hnp]
+
+/-- `type_of_id` on digits: `0` is the special parameter, every other all-digit identifier (any length, leading
+    zeros allowed) the positional parameter of that decimal number; an identifier starting with a digit that contains
+    another name character is invalid; everything else is a variable name. -/
+theorem typeOfId_cases (c : Char) (s2 : List Char) :
+    (c :: s2 = ['0'] → typeOfId (c :: s2) = some .zero) ∧
+    (c.isDigit = true → (c :: s2).all Char.isDigit = true → c :: s2 ≠ ['0'] →
+      typeOfId (c :: s2) = some (.pos (digitsToNat (c :: s2)))) ∧
+    (c.isDigit = true → (c :: s2).all Char.isDigit = false → typeOfId (c :: s2) = none) ∧
+    (c.isDigit = false → typeOfId (c :: s2) = some (.var (String.ofList (c :: s2)))) := by
+  refine ⟨fun h => by simp [typeOfId, h], fun hd ha h0 => ?_, fun hd ha => ?_, fun hd => ?_⟩
+  · unfold typeOfId; simp only [h0, if_false, hd, if_true, ha]
+  · unfold typeOfId
+    have h0 : c :: s2 ≠ ['0'] := by
+      intro h; rw [h] at ha; revert ha; decide
+    simp only [h0, if_false, hd, if_true, ha]; simp
+  · unfold typeOfId
+    have h0 : c :: s2 ≠ ['0'] := by
+      intro h; simp at h; have := h.1; subst this; revert hd; decide
+    simp [h0, hd]
+
+example : lexBraced true "12%%a*}z".toList = .ok { id := "12".toList, param := .pos 12, modifier := .trim '%' true "a*".toList, rest := ['z'] } := by
+  have h := lexBraced_id_general true '1' ['2'] "%%a*".toList ['z'] (.pos 12) (.trim '%' true "a*".toList)
+    (by decide) (by decide) (by decide) (by decide) rfl
+  simpa using h
+
+
+example : lexBraced true "@%a}".toList = .error .nonPortable ∧
+    lexBraced false "@%a}".toList = .ok { id := ['@'], param := .at, modifier := .trim '%' false ['a'], rest := [] } := by
+  have h := fun pt => lexBraced_special_general pt '@' "%a".toList [] .at (.trim '%' false ['a']) (by decide) (by decide)
+    (by decide) rfl
+  exact ⟨by simpa [hasNonPortableModifier] using h true, by simpa using h false⟩
+
+example : lexSuffix "##a*}c".toList = .ok (.trim '#' true "a*".toList, "}c".toList) :=
+  (lexSuffix_trim '#' true "a*".toList ['c'] (by decide) (by decide) (by simp)).1
 
 /-! ## Quote removal -/
 
@@ -520,6 +691,104 @@ theorem quotes_protect_single (env : Env) (w : Word) (s : List Char) (h : w.plai
 
 example : (Word.cons (.unq (.lit 'a')) (.cons (.dq (.cons (.lit ' ') (.cons (.bs '$') .nil)))
     (.cons (.sq ['b', ' ']) (.cons (.unq (.bs ' ')) .nil)))).plain = some ['a', ' ', '$', 'b', ' ', ' '] := rfl
+
+/-! ## Tilde expansion (XCU 2.6.1; `initial/tilde.rs`) -/
+
+/-- ★ A tilde-prefix at the front of a word, followed by any text made of literal characters and quoting forms,
+    expands as a command argument to exactly ONE field: the text the prefix stands for (`tildeText`: the directory,
+    one trailing slash dropped before a slash) followed by the enclosed text — for every environment, whatever
+    characters the directory contains and whatever IFS is (a blank or an IFS character inside HOME never splits;
+    an empty directory still yields one — empty — field). -/
+theorem tilde_word_one_field (env : Env) (name : List Char) (slash : Bool) (w : Word) (s : List Char)
+    (h : w.plain = some s) :
+    expandWordMultiple env (.cons (.tilde name slash) w) = (env, .ok [tildeText env name slash ++ s]) := by
+  rw [expandWordMultiple_eq_posix]
+  obtain ⟨cs, hcs, hgood, _⟩ := word_plain w s h
+  obtain ⟨horig, hne, hrq⟩ := posixTilde_facts env name slash
+  unfold posixExpandArg
+  simp only [posixWord, posixWordUnit]
+  rw [posixWordGo_pchars env true w cs _ hcs]
+  simp only [List.flatMap_cons, List.flatMap_nil, List.append_nil]
+  rw [← splitWith_eq_specFields]
+  have hs : splitWith env.ifs.classifyAttr (posixTilde env name slash ++ cs) = [posixTilde env name slash ++ cs] := by
+    have := quoted_never_split env.ifs (posixTilde env name slash ++ cs) (fun c hc => by
+      rcases List.mem_append.mp hc with hc | hc
+      · exact Or.inr (Or.inr (by simp [horig c hc]))
+      · exact Or.inr (Or.inr (by simp [hgood.1 c hc])))
+    simpa [splitInto, hne] using this
+  simp [hs, removeQuotesAndStrip_append, hrq, hgood.2]
+
+/-- … and in a single-field context (assignment) to exactly that text. -/
+theorem tilde_word_single (env : Env) (name : List Char) (slash : Bool) (w : Word) (s : List Char)
+    (h : w.plain = some s) :
+    expandWordSingle env (.cons (.tilde name slash) w) = (env, .ok (tildeText env name slash ++ s)) := by
+  rw [expandWordSingle_eq_posix]
+  obtain ⟨cs, hcs, hgood, _⟩ := word_plain w s h
+  obtain ⟨_, _, hrq⟩ := posixTilde_facts env name slash
+  unfold posixExpandSingle
+  simp only [posixWord, posixWordUnit]
+  rw [posixWordGo_pchars env true w cs _ hcs]
+  simp [joinBySep, List.intercalate, removeQuotesAndStrip_append, hrq, hgood.2]
+
+/-- What the prefix stands for when XCU 2.6.1 defines it (HOME set for `~`, login name known for `~name`): the directory
+    itself; and when the prefix is followed by a slash and the directory ends in one, the directory without that slash —
+    so that prefix + `/` reads exactly as the directory (no doubled slash). -/
+theorem tilde_directory (env : Env) (name dir : List Char) (slash : Bool) (h : tildeDir env name = some dir) :
+    (slash = false → tildeText env name slash = dir) ∧
+    (slash = true → dir.getLast? ≠ some '/' → tildeText env name slash = dir) ∧
+    (slash = true → dir.getLast? = some '/' → tildeText env name slash ++ ['/'] = dir) := by
+  unfold tildeText
+  rw [h]
+  refine ⟨fun hs => by simp [hs], fun hs hl => by simp [hl], fun hs hl => ?_⟩
+  simp only [hs, hl, and_self, if_true]
+  have hne : dir ≠ [] := by intro hd; simp [hd] at hl
+  have := List.dropLast_concat_getLast hne
+  rw [List.getLast?_eq_some_getLast hne] at hl
+  simp only [Option.some.injEq] at hl
+  rw [hl] at this
+  exact this
+
+/-- Where POSIX leaves the result unspecified (HOME unset, unknown login name) the prefix is left as it is — for every
+    name the parser can produce (a tilde name never contains a slash). -/
+theorem tilde_unspecified_unchanged (env : Env) (name : List Char) (slash : Bool) (hs : '/' ∉ name)
+    (h : tildeDir env name = none) : tildeText env name slash = '~' :: name := by
+  unfold tildeText
+  rw [h]
+  have : ('~' :: name).getLast? ≠ some '/' := by
+    intro hl
+    have hm := List.mem_of_getLast? hl
+    simp at hm
+    exact hs hm
+  simp [this]
+
+def envHome (h : String) : Env :=
+  { vars := [("IFS", { value := some (.scalar Ifs.defaultChars), readOnly := false }),
+             ("HOME", { value := some (.scalar h.toList), readOnly := false })],
+    pos := [], nounset := false, exitStatus := 0, arg0 := [], homes := [("a".toList, "/u v/".toList)] }
+
+/-- `~/c` with HOME = `/a b` under the default IFS: one field, the blank inside the directory does not split -/
+example : expandWordMultiple (envHome "/a b") (.cons (.tilde [] true) (.cons (.unq (.lit '/')) (.cons (.unq (.lit 'c')) .nil)))
+    = (envHome "/a b", .ok ["/a b/c".toList]) := by
+  rw [tilde_word_one_field _ _ _ _ "/c".toList rfl]
+  have : tildeText (envHome "/a b") [] true = "/a b".toList := by decide +kernel
+  rw [this]; rfl
+/-- an empty HOME: `~` is one empty field (not zero fields) -/
+example : expandWordMultiple (envHome "") (.cons (.tilde [] false) .nil) = (envHome "", .ok [[]]) := by
+  rw [tilde_word_one_field _ _ _ _ [] rfl]
+  have : tildeText (envHome "") [] false = [] := by decide +kernel
+  rw [this]; rfl
+/-- `~a/` where the user database gives `/u v/`: the trailing slash of the directory is dropped before the slash -/
+example : expandWordMultiple (envHome "") (.cons (.tilde "a".toList true) (.cons (.unq (.lit '/')) .nil))
+    = (envHome "", .ok ["/u v/".toList]) := by
+  rw [tilde_word_one_field _ _ _ _ "/".toList rfl]
+  have : tildeText (envHome "") "a".toList true = "/u v".toList := by decide +kernel
+  rw [this]; rfl
+/-- an unknown login name: the tilde-prefix stays -/
+example : tildeText (envHome "/h") "zz".toList false = "~zz".toList ∧ tildeDir (envHome "/h") "zz".toList = none := by
+  decide +kernel
+/-- inside double quotes `~` is an ordinary character (`quotes_protect`) -/
+example : expandWordMultiple (envHome "/h") (.cons (.dq (.cons (.lit '~') .nil)) .nil) = (envHome "/h", .ok ["~".toList]) :=
+  quotes_protect _ _ _ (by simp) rfl
 
 /-! ## `${p}` and `${#p}` -/
 
